@@ -21,7 +21,8 @@ EXTENDS Common, Json
 CONSTANTS MaxLines, LineAtoms, TemplateIdx
 
 NONE == "<none>"
-E(d, n, title, cls, pre) == [d |-> d, n |-> n, title |-> title, cls |-> cls, pre |-> pre]
+E(d, n, title, cls, pre) == [d |-> d, n |-> n, title |-> title, cls |-> cls, pre |-> pre, xr |-> 1]
+X(e, k) == [e EXCEPT !.xr = k]          \* a leaf written with an explicit repeater *k
 PH == "$#"             \* marks a placeholder site in title / pre
 Templates == <<
   [abbr |-> "ul>li*",                 items |-> <<E(0,"ul",NONE,NONE,""), E(1,"li",NONE,NONE,"")>>,                                lo |-> 2, hi |-> 2],
@@ -38,7 +39,10 @@ Templates == <<
   [abbr |-> "x>y*+z",                 items |-> <<E(0,"x",NONE,NONE,""), E(1,"y",NONE,NONE,""), E(1,"z",NONE,NONE,"")>>,            lo |-> 2, hi |-> 2],
   [abbr |-> "p{q}>b",                 items |-> <<E(0,"p",NONE,NONE,"q"), E(1,"b",NONE,NONE,"")>>,                                 lo |-> 0, hi |-> 0],
   [abbr |-> "ul>li[title=$#]*",       items |-> <<E(0,"ul",NONE,NONE,""), E(1,"li",PH,NONE,"")>>,                                  lo |-> 2, hi |-> 2],
-  [abbr |-> "x>(y>z)*",               items |-> <<E(0,"x",NONE,NONE,""), E(1,"y",NONE,NONE,""), E(2,"z",NONE,NONE,"")>>,            lo |-> 2, hi |-> 3] >>
+  [abbr |-> "x>(y>z)*",               items |-> <<E(0,"x",NONE,NONE,""), E(1,"y",NONE,NONE,""), E(2,"z",NONE,NONE,"")>>,            lo |-> 2, hi |-> 3],
+  [abbr |-> "ul>li*>b*2{$#}",         items |-> <<E(0,"ul",NONE,NONE,""), E(1,"li",NONE,NONE,""), X(E(2,"b",NONE,NONE,PH), 2)>>,     lo |-> 2, hi |-> 3],
+  [abbr |-> "li*>i+b[title=$#]*3",    items |-> <<E(0,"li",NONE,NONE,""), E(1,"i",NONE,NONE,""), X(E(1,"b",PH,NONE,""), 3)>>,        lo |-> 1, hi |-> 3],
+  [abbr |-> "(dt{$#}+dd*2)*",         items |-> <<E(0,"dt",NONE,NONE,PH), X(E(0,"dd",NONE,NONE,""), 2)>>,                         lo |-> 1, hi |-> 2] >>
 
 VARIABLES tpl, lines
 vars == <<tpl, lines>>
@@ -69,9 +73,10 @@ CopyItem(k, i, tx) == LET it == T.items[k] IN
               ELSE IF ~HasPH /\ k = T.hi THEN it.pre \o tx        \* appended once to the deepest last element of the copy
               ELSE it.pre]
 PlainItem(k) == LET it == T.items[k] IN [d |-> it.d, n |-> it.n, title |-> it.title, cls |-> it.cls, text |-> it.pre]
-Range(a, b, F(_)) == [j \in 1..(IF b >= a THEN b - a + 1 ELSE 0) |-> F(a + j - 1)]
 RECURSIVE FlatSeq(_)
 FlatSeq(ss) == IF ss = <<>> THEN <<>> ELSE Head(ss) \o FlatSeq(Tail(ss))
+\* items a..b, each mapped by F; an explicitly repeated leaf is listed xr times
+Range(a, b, F(_)) == FlatSeq([j \in 1..(IF b >= a THEN b - a + 1 ELSE 0) |-> Times(<<F(a + j - 1)>>, T.items[a + j - 1].xr)])
 ContractListing ==
     IF T.lo = 0
     THEN [k \in 1..Len(T.items) |-> IF k = Len(T.items) THEN [PlainItem(k) EXCEPT !.text = @ \o WholeText] ELSE PlainItem(k)]
@@ -91,7 +96,7 @@ MCopy(k, i, ins, acc) ==
                    title |-> IF it.title = PH THEN tx ELSE it.title,
                    cls |-> IF it.cls = "c$" THEN "c" \o ToString(i) ELSE it.cls,
                    text |-> IF it.pre = PH THEN tx ELSE it.pre]
-         IN MCopy(k + 1, i, ins \/ it.title = PH \/ it.pre = PH, Append(acc, e))
+         IN MCopy(k + 1, i, ins \/ it.title = PH \/ it.pre = PH, acc \o Times(<<e>>, it.xr))
 MLoop(i, inserted) ==
     IF i > Len(NonBlank) THEN <<>>
     ELSE LET c == MCopy(T.lo, i, inserted, <<>>)
@@ -104,7 +109,9 @@ MachineListing ==
     ELSE Range(1, T.lo - 1, PlainItem) \o MLoop(1, FALSE) \o Range(T.hi + 1, Len(T.items), PlainItem)
 
 WrapInv == Complete => MachineListing = ContractListing
-CopiesInv == (Complete /\ T.lo > 0) => Len(ContractListing) = Len(T.items) - (T.hi - T.lo + 1) + Len(NonBlank) * (T.hi - T.lo + 1)
+RECURSIVE SumXr(_, _)
+SumXr(a, b) == IF a > b THEN 0 ELSE T.items[a].xr + SumXr(a + 1, b)
+CopiesInv == (Complete /\ T.lo > 0) => Len(ContractListing) = SumXr(1, T.lo - 1) + Len(NonBlank) * SumXr(T.lo, T.hi) + SumXr(T.hi + 1, Len(T.items))
 
 Dump == Complete => PrintT(<<"VEC", ToJson([abbr |-> T.abbr, lines |-> lines, implicit |-> T.lo > 0, out |-> ContractListing])>>)
 =============================================================================
